@@ -12,10 +12,12 @@ macro_rules! dispatch {
         match $id {
             "C01" => engine::$f::<c01::C01>($($arg),*),
             "C02" => engine::$f::<c02::C02>($($arg),*),
+            "C03" => engine::$f::<c03::C03>($($arg),*),
             "C05" => engine::$f::<c05::C05>($($arg),*),
             "C06" => engine::$f::<c06::C06>($($arg),*),
             "C08" => engine::$f::<c08::C08>($($arg),*),
             "C09" => engine::$f::<c09::C09>($($arg),*),
+            "C11" => engine::$f::<c11::C11>($($arg),*),
             "C17" => engine::$f::<c17::C17>($($arg),*),
             "C18" => engine::$f::<c18::C18>($($arg),*),
             "C19" => engine::$f::<c19::C19>($($arg),*),
